@@ -38,6 +38,7 @@ package sm2
 
 //@ func sm2.GenerateKey
 //@ mode int
+//@ assigns rdidx
 //@ use_axiom order
 //@ ensures nilrand: rand == nil ==> nonnil(err) && x == nil && y == nil && rdidx == old(rdidx)
 //@ ensures ok: !nonnil(err) ==> len(priv) == 32 && 1 <= be(priv) && be(priv) <= N - 2 && be(priv) == draw(rdidx - 1) && old(rdidx) < rdidx
@@ -91,6 +92,7 @@ package sm2
 
 //@ func sm2.SignHashed
 //@ mode int
+//@ assigns rdidx
 //@ ensures badkey: !(len(priv) <= 32 && 1 <= be(priv) && be(priv) <= N - 2) ==> nonnil(err) && rdidx == old(rdidx)
 //@ ensures drawn: !nonnil(err) ==> old(rdidx) < rdidx && 1 <= draw(rdidx - 1) && draw(rdidx - 1) < N
 //@ ensures drawn_r: !nonnil(err) ==> std_r(be(e), draw(rdidx - 1)) != 0
@@ -121,6 +123,7 @@ package sm2
 
 //@ func sm2.SignZa
 //@ mode int
+//@ assigns rdidx
 //@ ensures badkey: !(len(priv) <= 32 && 1 <= be(priv) && be(priv) <= N - 2) ==> nonnil(err) && rdidx == old(rdidx)
 //@ ensures drawn: !nonnil(err) ==> old(rdidx) < rdidx && 1 <= draw(rdidx - 1) && draw(rdidx - 1) < N
 //@ ensures skipped: !nonnil(err) ==> forall(j, old(rdidx), rdidx - 1, rejected(be(priv), bedigest(e_stream(za, msg)), draw(j)))
@@ -129,11 +132,13 @@ package sm2
 
 //@ func sm2.VerifyZa
 //@ mode int
+//@ assigns nothing
 //@ ensures iff: result0 == (len(pubx) == 32 && len(puby) == 32 && len(r) == 32 && len(s) == 32 && std_verify(be(pubx), be(puby), bedigest(e_stream(za, msg)), be(r), be(s)))
 //@ ensures err: result0 ==> !nonnil(result1)
 
 //@ func sm2.Sign
 //@ mode int
+//@ assigns rdidx
 //@ ensures toolong: len(id) >= 8192 ==> nonnil(err) && r == nil && s == nil && rdidx == old(rdidx)
 //@ ensures badkey: !(len(priv) <= 32 && 1 <= be(priv) && be(priv) <= N - 2) ==> nonnil(err) && rdidx == old(rdidx)
 //@ ensures drawn: !nonnil(err) ==> old(rdidx) < rdidx && 1 <= draw(rdidx - 1) && draw(rdidx - 1) < N
@@ -143,6 +148,7 @@ package sm2
 
 //@ func sm2.Verify
 //@ mode int
+//@ assigns nothing
 //@ ensures toolong: len(id) >= 8192 ==> !result0 && nonnil(result1)
 //@ ensures iff: len(id) < 8192 ==> result0 == (len(pubx) == 32 && len(puby) == 32 && len(r) == 32 && len(s) == 32 && std_verify(be(pubx), be(puby), bedigest(e_stream_id(id, pubx, puby, msg)), be(r), be(s)))
 //@ ensures err: result0 ==> !nonnil(result1)
